@@ -9,6 +9,7 @@ feasible decision sequence (DFS, feasibility by z3).
 from __future__ import annotations
 
 import math
+import os
 import time
 from fractions import Fraction
 
@@ -111,13 +112,22 @@ def active() -> bool:
 LINEAR_ABSTRACTION = None  # set by pyvc.engine: terms -> (abstracted terms, #products)
 
 
+def _time_scale():
+    """wall-clock stretch factor under load (fixed per run by pyvc.cli / pyvc.engine)"""
+    try:
+        return max(1.0, float(os.environ.get("VERIF_TIME_SCALE", "1") or 1))
+    except ValueError:
+        return 1.0
+
+
 def _feasible(c: Ctx, extra):
     t0 = time.time()
     s = _solver_of(c)
     s.push()
     try:
         s.add(extra)
-        s.set("timeout", 400)
+        sc = _time_scale()
+        s.set("timeout", int(400 * sc))
         r = s.check()
         if r == z3.unknown:
             if LINEAR_ABSTRACTION is not None:
@@ -127,13 +137,13 @@ def _feasible(c: Ctx, extra):
                     ab, nprod = LINEAR_ABSTRACTION(list(c.pc) + list(c.axioms) + [extra], som=False)
                     if nprod:
                         s0 = z3.Solver()
-                        s0.set("timeout", 1500)
+                        s0.set("timeout", int(1500 * sc))
                         s0.add(*ab)
                         if s0.check() == z3.unsat:
                             return False
                 except Exception:
                     pass
-            s.set("timeout", FEAS_TIMEOUT_MS)
+            s.set("timeout", int(FEAS_TIMEOUT_MS * sc))
             r = s.check()
         return r != z3.unsat  # unknown => explore (sound: more paths, never fewer)
     finally:
